@@ -1215,8 +1215,8 @@ def gen_meta_program(rng, path, nprocs, fmt=None, hints='-', ohints=None, flush_
             isrec = hasrec and rng.chance(1, 2)
             if isrec:
                 vd = [('t', 0)] + vd[:1]
-            if rng.chance(1, 3):
-                p.all('set_fill %d' % rng.range(0, 1))
+            if rng.chance(1, 2):
+                p.all('set_fill %d' % rng.choice([1, 1, 0]))
             nv = Var('n%d' % cnt[0], rng.choice(types), vd, isrec); cnt[0] += 1
             p.all('def_var %s %s %d %s' % (nv.name, nv.xt, len(nv.dims), ' '.join(d[0] for d in nv.dims)))
             if rng.chance(1, 3):
